@@ -14,6 +14,7 @@ nil ≠ empty" that the property asks for (model maps are association lists in i
 sequential unmarshaling and unmarshaling the merged tree insert in the same order).
 -/
 import JsonV.Lemmas.MergeClauses
+import JsonV.Lemmas.MergeDup
 
 namespace JsonV.Props.C14
 open JsonV JsonV.Spec JsonV.Model JsonV.Lemmas.Merge
@@ -23,15 +24,22 @@ open JsonV JsonV.Spec JsonV.Model JsonV.Lemmas.Merge
 /-- **Merge law.**  Unmarshaling `j2` into the result of unmarshaling `j1` (into a zero value), when
 both calls succeed, gives exactly the value that unmarshaling `merge j1 j2` into a zero value gives
 (and that call succeeds). -/
-theorem merge_law (o : UOpts) (T : GoType) (hwf : T.wf = true) (j1 j2 : JTree) (v1 v2 : GoVal)
+theorem merge_law (o : UOpts) (ho : o.allowDup = false) (T : GoType) (hwf : T.wf = true) (j1 j2 : JTree) (v1 v2 : GoVal)
     (h1 : unm o T j1 T.zero = .ok v1) (h2 : unm o T j2 v1 = .ok v2) :
     unm o T (JTree.merge j1 j2) T.zero = .ok v2 :=
-  merge_law_unm' o T hwf j1 j2 v1 v2 h1 h2
+  merge_law_unm' o ho T hwf j1 j2 v1 v2 h1 h2
+
+/-- The merge law for ANY option record (also `AllowDuplicateNames`), on trees without repeated names. -/
+theorem merge_law_dupFree (o : UOpts) (T : GoType) (hwf : T.wf = true) (j1 j2 : JTree) (v1 v2 : GoVal)
+    (hd1 : j1.dupFree = true) (hd2 : j2.dupFree = true)
+    (h1 : unm o T j1 T.zero = .ok v1) (h2 : unm o T j2 v1 = .ok v2) :
+    unm o T (JTree.merge j1 j2) T.zero = .ok v2 :=
+  merge_law_unm o T hwf j1 j2 v1 v2 hd1 hd2 h1 h2
 
 /-- A successful call has met no repeated member name anywhere in its input (the decoder checks
 skipped values too), which is why `merge_law` needs no such hypothesis. -/
-theorem success_dupFree (o : UOpts) (T : GoType) (j : JTree) (prior v : GoVal)
-    (h : unm o T j prior = .ok v) : j.dupFree = true := unm_dupFree o T j prior v h
+theorem success_dupFree (o : UOpts) (ho : o.allowDup = false) (T : GoType) (j : JTree) (prior v : GoVal)
+    (h : unm o T j prior = .ok v) : j.dupFree = true := unm_dupFree o ho T j prior v h
 
 /-- The merged tree is again free of repeated names (so the law can be iterated). -/
 theorem merge_dupFree (a b : JTree) (ha : a.dupFree = true) (hb : b.dupFree = true) :
@@ -74,7 +82,7 @@ example : Ex.T.wf = true ∧ Ex.j1.dupFree = true ∧ Ex.j2.dupFree = true ∧
 
 /-- **Chain law.**  `k` successive successful calls starting from the zero value leave what one call
 with the left-folded merge of the `k` trees leaves (`k = 0`: the zero value and `null`). -/
-theorem chain_law (o : UOpts) (T : GoType) (hwf : T.wf = true) (js : List JTree) (v : GoVal)
+theorem chain_law (o : UOpts) (ho : o.allowDup = false) (T : GoType) (hwf : T.wf = true) (js : List JTree) (v : GoVal)
     (h : unmChain o T js T.zero = .ok v) :
     unm o T (JTree.mergeAll js) T.zero = .ok v := by
   cases js with
@@ -88,7 +96,7 @@ theorem chain_law (o : UOpts) (T : GoType) (hwf : T.wf = true) (js : List JTree)
     | error e => simp [hj] at h
     | ok v0 =>
       simp only [hj] at h
-      exact chain_fold o T hwf r j v0 v hj h
+      exact chain_fold o ho T hwf r j v0 v hj h
 
 example : unmChain {} Ex.T [Ex.j1, Ex.j2] Ex.T.zero = .ok Ex.v2 := by rfl
 
@@ -124,7 +132,7 @@ theorem array_overwrite (o : UOpts) (n : Nat) (t : GoType) (xs : List JTree) (pr
        | some x => ∃ w, unm o t x t.zero = .ok w ∧ vs[i]? = some w
        | none => vs[i]? = some t.zero) := by
   simp only [unm] at h
-  cases he : arrayElems (unm o t) t.zero n xs with
+  cases he : arrayElems o (unm o t) t.zero n xs with
   | error e => simp [he] at h
   | ok vs =>
     simp only [he] at h
@@ -141,7 +149,7 @@ theorem unmentioned_kept_map (o : UOpts) (t : GoType) (ms : List (Bytes × JTree
     (m : List (Bytes × GoVal)) (v : GoVal) (h : unm o (.map t) (.obj ms) (.mapOf m) = .ok v) :
     ∃ m', v = .mapOf m' ∧ ∀ n, n ∉ akeys ms → alookup n m' = alookup n m := by
   simp only [unm] at h
-  cases hf : objFold (fun _ => some (unm o t)) (fun _ => t.zero) ms [] m with
+  cases hf : objFold o (fun _ => some (unm o t)) (fun _ => t.zero) ms [] m with
   | error e => simp [hf] at h
   | ok m' =>
     simp only [hf, Except.ok.injEq] at h
@@ -152,7 +160,7 @@ theorem unmentioned_kept_struct (o : UOpts) (fs : List (Bytes × GoType)) (ms : 
     (fvs : List (Bytes × GoVal)) (v : GoVal) (h : unm o (.struct fs) (.obj ms) (.structOf fvs) = .ok v) :
     ∃ fvs', v = .structOf fvs' ∧ ∀ n, n ∉ akeys ms → alookup n fvs' = alookup n fvs := by
   simp only [unm] at h
-  cases hf : objFold (fieldDec o fs) (fieldZero fs) ms [] fvs with
+  cases hf : objFold o (fieldDec o fs) (fieldZero fs) ms [] fvs with
   | error e => simp [hf] at h
   | ok m' =>
     simp only [hf, Except.ok.injEq] at h
@@ -160,20 +168,66 @@ theorem unmentioned_kept_struct (o : UOpts) (fs : List (Bytes × GoType)) (ms : 
 
 /-- Mentioned map entries are decoded *into the existing entry* (merge), absent ones into a zero
 value; the key set only grows, in insertion order. -/
-theorem mentioned_merged_map (o : UOpts) (t : GoType) (ms : List (Bytes × JTree))
+theorem mentioned_merged_map (o : UOpts) (ho : o.allowDup = false) (t : GoType) (ms : List (Bytes × JTree))
     (m m' : List (Bytes × GoVal)) (h : unm o (.map t) (.obj ms) (.mapOf m) = .ok (.mapOf m')) :
     ∀ n j, (n, j) ∈ ms → ∃ w, unm o t j ((alookup n m).getD t.zero) = .ok w ∧ alookup n m' = some w := by
   simp only [unm] at h
-  cases hf : objFold (fun _ => some (unm o t)) (fun _ => t.zero) ms [] m with
+  cases hf : objFold o (fun _ => some (unm o t)) (fun _ => t.zero) ms [] m with
   | error e => simp [hf] at h
   | ok m'' =>
     simp only [hf, Except.ok.injEq, GoVal.mapOf.injEq] at h
     subst h
     intro n j hm
-    exact (objFold_facts (objFold_nodup hf).1 hf).known n j _ hm rfl
+    exact (objFold_facts (objFold_nodup ho hf).1 hf).known n j _ hm rfl
 
 example : unm {} (.map (.int 8)) (.obj [([0x62], .num [0x32])]) (.mapOf [([0x61], .int 1)])
     = .ok (.mapOf [([0x61], .int 1), ([0x62], .int 2)]) := by rfl
+
+/-! ### AllowDuplicateNames (`allowDup`) -/
+
+/-- **On input without repeated names the option changes nothing**: same value, same error, for every
+type and every prior value. -/
+theorem permissive_eq (o : UOpts) (T : GoType) (j : JTree) (v : GoVal) (hd : j.dupFree = true) :
+    unm { o with allowDup := true } T j v = unm { o with allowDup := false } T j v :=
+  unm_congr_dup { o with allowDup := true } { o with allowDup := false } rfl T j v hd
+
+/-- **Later wins, by merging**: with `allowDup`, an object with one more member `(k, x)` at the end is
+unmarshaled exactly like two successive calls — the object without it, then `{k: x}` — into the same
+destination.  In particular when `k` already occurs in `ms`, the repeated member is unmarshaled INTO
+what the earlier one left (struct field in place, map entry merged, `any` by the held dynamic type),
+never rejected and never simply overwriting a container.  (Holds whether or not `k` occurs in `ms`.) -/
+theorem later_wins (o : UOpts) (ho : o.allowDup = true) (T : GoType) (ms : List (Bytes × JTree)) (k : Bytes)
+    (x : JTree) (v : GoVal) :
+    unm o T (.obj (ms ++ [(k, x)])) v = unmChain o T [.obj ms, .obj [(k, x)]] v :=
+  later_wins_all o ho T ms k x v
+
+/-- Corollary connecting to the merge law: with `allowDup`, if the object before the repeated member
+and the member's value have no repeated names themselves, then a successful call on the object WITH
+the duplicate leaves what the (duplicate-free) merged object `merge {ms} {k: x}` leaves — under the
+same options, and therefore (`permissive_eq`) also under the default ones. -/
+theorem dup_is_merge (o : UOpts) (ho : o.allowDup = true) (T : GoType) (hwf : T.wf = true)
+    (ms : List (Bytes × JTree)) (k : Bytes) (x : JTree) (v : GoVal)
+    (hd1 : (JTree.obj ms).dupFree = true) (hd2 : x.dupFree = true)
+    (h : unm o T (.obj (ms ++ [(k, x)])) T.zero = .ok v) :
+    unm o T (JTree.merge (.obj ms) (.obj [(k, x)])) T.zero = .ok v ∧
+    unm { o with allowDup := false } T (JTree.merge (.obj ms) (.obj [(k, x)])) T.zero = .ok v := by
+  have hdx : (JTree.obj [(k, x)]).dupFree = true := by
+    simp [JTree.dupFree, JTree.dupFreeM, nodupB, akeys, hd2]
+  rw [later_wins o ho, unmChain_two] at h
+  cases h1 : unm o T (.obj ms) T.zero with
+  | error e => simp [h1] at h
+  | ok v1 =>
+    simp only [h1] at h
+    have hm := merge_law_dupFree o T hwf (.obj ms) (.obj [(k, x)]) v1 v hd1 hdx h1 h
+    refine ⟨hm, ?_⟩
+    have := permissive_eq o T (JTree.merge (.obj ms) (.obj [(k, x)])) T.zero (merge_dupFree _ _ hd1 hdx)
+    have ho' : ({ o with allowDup := true } : UOpts) = o := by cases o; simp_all
+    rw [ho'] at this
+    rw [← this]; exact hm
+
+example : unm { allowDup := true } (.map (.map (.int 8)))
+    (.obj [([0x61], .obj [([0x78], .num [0x31])]), ([0x61], .obj [([0x79], .num [0x32])])]) .nilMap
+    = .ok (.mapOf [([0x61], .mapOf [([0x78], .int 1), ([0x79], .int 2)])]) := by rfl
 
 /-! ### Faithfulness of the `any` model -/
 
